@@ -11,10 +11,12 @@ import Driver.Scripts
 import Driver.Archive
 import Driver.Unit
 import Driver.Command
+import Driver.Junit
 namespace Driver
 
 def dispatch (line : String) : String :=
   match line.trimAscii.toString.splitOn " " with
+  | "junit" :: rest => (handleJunit rest).getD "bad-op"
   | "shjoin" :: rest => (handleShJoin rest).getD "bad-op"
   | "shsplit" :: rest => (handleShSplit rest).getD "bad-op"
   | "cmd" :: rest => (handleCmd rest).getD "bad-op"
